@@ -141,7 +141,7 @@ func selfTest(r *Report, prop, repo string) {
 		} else {
 			// a seed of another property listed here through `also` may legitimately be invisible to this check only if its own
 			// property catches it; seeds named after this property must be caught (C16-1 is the declared exception)
-			declared := map[string]bool{"C03-5": true, "C16-1": true, "C16-3": true}
+			declared := map[string]bool{"C03-5": true, "C16-1": true, "C16-3": true, "C16-24": true}
 			also, _ := os.ReadFile(filepath.Join(root, "seeded", s, "also"))
 			switch {
 			case declared[s]:
